@@ -235,11 +235,16 @@ func execC03(rc *harness.RunCtx, p *harness.Plan, cfg *Config, ops []sim.Op) *ha
 			return out
 		}
 	}
+	// distinct = distinct history (operation kinds with their blob sizes),
+	// store parameters, crash operation and crash-point count
 	kinds := ""
 	for _, op := range ops {
 		kinds += op.Kind[:2]
+		for _, bi := range op.B {
+			kinds += fmt.Sprintf("%d.", cfg.Blobs[bi%len(cfg.Blobs)].Size)
+		}
 	}
-	out.ShapeKey = fmt.Sprintf("%s/%d|%s|j%d n%d", cfg.Root.Type, cfg.Root.MaxFileSize, kinds, j, ncalls)
+	out.ShapeKey = fmt.Sprintf("%s/%d|%s|j%d n%d|p%v|s%d", cfg.Root.Type, cfg.Root.MaxFileSize, kinds, j, ncalls, cc.PunchUnsupported, len(cc.Suffix))
 	out.Nontrivial = ncalls > 0
 	out.Sample = map[string]any{"store": cfg.Root.Shape(), "maxFileSize": cfg.Root.MaxFileSize, "history": opStrings(ops, 12), "crash_op": j, "crash_points": ncalls + 1, "suffix": opStrings(cc.Suffix, 6)}
 	return out
